@@ -27,5 +27,6 @@ CONSTANTS
   StopHooksMayFail = FALSE
   DrainOnClose = FALSE
   ReportBeforeRelease = TRUE
+  ReserveIgnoresStarting = FALSE
 SPECIFICATION Spec
 INVARIANTS FailedStartFreesName
